@@ -18,10 +18,10 @@ Theorem C18_par_names_order poly noff :
   par_names poly noff = [nP; ne; nomega; nM0; ns] ++ (nK :: map nv (seq 0 poly)) ++ map ndv (seq 1 noff).
 Proof. exact (par_names_order poly noff). Qed.
 
-(* data: accepted iff a single RVData with no offsets, or k+1 diagonal-error RVData sources with k offsets *)
+(* data: accepted iff a single diagonal-error RVData with no offsets, or k+1 diagonal-error RVData sources with k offsets *)
 Theorem C18_data_accept_set d noff :
   validate_data d noff = DOk <->
-  (exists c, d = Single (SrcRV c) /\ noff = 0) \/
+  (d = Single (SrcRV false) /\ noff = 0) \/
   (exists srcs, d = Many srcs /\ Forall (fun s => s = SrcRV false) srcs /\ length srcs = S noff).
 Proof. exact (validate_data_exact d noff). Qed.
 
